@@ -825,8 +825,11 @@ def get_symbols(expr: z3.ExprRef) -> Set[z3.SeqRef]:
 
 
 def smt_expr_to_str(  # noqa: C901
-    f: z3.ExprRef, qfd_var_stack: Tuple[str, ...] = ()
+    f: z3.ExprRef, qfd_var_stack: Tuple[str, ...] = (), smtlib_strings: bool = False
 ) -> str:
+    # If `smtlib_strings` is set, string literals are printed such that an SMT-LIB
+    # parser reads them back unchanged: quotes are doubled (instead of the ISLa-style
+    # escape \") and non-ASCII characters are written as \u{...}.
     op_strings = {
         z3.Z3_OP_SEQ_IN_RE: "str.in_re",
         z3.Z3_OP_SEQ_CONCAT: "str.++",
@@ -840,7 +843,17 @@ def smt_expr_to_str(  # noqa: C901
         assert len(qfd_var_stack) > idx
         return qfd_var_stack[idx]
     if z3.is_string_value(f):
-        result = '"' + cast(str, f.as_string()).replace('"', r"\"") + '"'
+        if smtlib_strings:
+            result = (
+                '"'
+                + "".join(
+                    '""' if c == '"' else c if ord(c) < 128 else "\\u{%x}" % ord(c)
+                    for c in cast(str, f.as_string())
+                )
+                + '"'
+            )
+        else:
+            result = '"' + cast(str, f.as_string()).replace('"', r"\"") + '"'
         result = result.replace(r"\u{}", r"\u{0}")
         return result
     if z3.is_int_value(f):
@@ -868,7 +881,7 @@ def smt_expr_to_str(  # noqa: C901
             return op
 
         return (
-            f"({op} {' '.join(map(lambda c: smt_expr_to_str(c, qfd_var_stack), f.children()))}".strip()
+f"({op} {' '.join(map(lambda c: smt_expr_to_str(c, qfd_var_stack, smtlib_strings), f.children()))}".strip()
             + ")"
         )
 
@@ -880,7 +893,7 @@ def smt_expr_to_str(  # noqa: C901
 
         kind = "forall" if f.is_forall() else "exists"
 
-        return f"({kind} ({' '.join(vars)}) {smt_expr_to_str(f.body(), qfd_var_stack)})"
+        return f"({kind} ({' '.join(vars)}) {smt_expr_to_str(f.body(), qfd_var_stack, smtlib_strings)})"
 
     raise NotImplementedError(f"{str(f)} ({type(f).__name__})")
 
